@@ -1,5 +1,6 @@
 import GN.Url.ObjSpec
 import GN.Url.ObjLemmas
+import GN.Url.ReparseLemmas
 
 /-! # C13 — a URL object stays one coherent URL under every setter and searchParams history
 
@@ -30,6 +31,14 @@ theorem default_port_hidden : DefaultPortHidden := defaultPortHidden
 
 /-- the shown port is a decimal number -/
 theorem port_is_a_number : PortIsNumber := portIsNumber
+
+/-- **that href can be parsed again by new URL() and yields the same href** — in every reachable state: the
+one-argument constructor accepts the shown href (or the host leaves the punycode model, for which no claim is made)
+and the URL it builds shows the same href.  Together with `Reach` this also says that **an assignment that would make
+the URL unparsable is never stored**: no setter history leads to a state whose href the constructor rejects.
+(A first version of this statement was false: `u.protocol = "/x"` on a non-special URL stored the scheme `/x`; the
+counterexample came out of the proof attempt, was confirmed on the real code and repaired there and in the model.) -/
+theorem href_parses_again_to_itself : ReparseStable := reparseStable
 
 /-- percent-encoding of path, fragment and userinfo is lossless (component-wise half of "href parses again") -/
 theorem escape_round_trip : EscapeRoundTrip := escapeRoundTrip
